@@ -529,6 +529,84 @@ pub fn run(tier: Tier) -> i32 {
     }
     rep.set("reused_expression_evaluations", reuse_n);
 
+    // ---------------- deep chains -------------------------------------------
+    // Long left- and right-nested chains over a column: nesting depth is not
+    // an error condition, the value is the documented one at any depth.
+    let deep_n = {
+        let depths: Vec<usize> = if tier.thorough() { vec![2, 10, 63, 64, 65, 100, 127, 128, 129, 130, 200, 255, 256, 257, 500, 1000] } else { vec![10, 64, 127, 128, 129, 256, 1000] };
+        let violations: (usize, Vec<(String, String, E)>) = std::thread::Builder::new()
+            .stack_size(256 << 20)
+            .spawn(move || {
+                let mut out: Vec<(String, String, E)> = Vec::new();
+                let mut p = make_row_package();
+                let row = the_row(&mut p);
+                let mut chains: Vec<(String, E)> = Vec::new();
+                for &d in &depths {
+                    for (name, op, bottom, other) in [
+                        ("add", Bin::Add, "c1", E::int(1)),
+                        ("sub", Bin::Sub, "c1", E::int(1)),
+                        ("and", Bin::And, "c1", E::int(1)),
+                        ("and-false-bottom", Bin::And, "c0", E::int(1)),
+                        ("or", Bin::Or, "c0", E::int(0)),
+                        ("or-true-bottom", Bin::Or, "c2", E::int(0)),
+                        ("eq", Bin::Eq, "c1", E::int(1)),
+                        ("bitor", Bin::BitOr, "c2", E::int(1)),
+                        ("concat", Bin::Add, "sa", E::str("b")),
+                    ] {
+                        let mut l = E::col(bottom);
+                        let mut r = E::col(bottom);
+                        for _ in 0..d {
+                            l = E::bin(op, l, other.clone());
+                            r = E::bin(op, other.clone(), r);
+                        }
+                        chains.push((format!("{}:left-nested:{}", name, d), l));
+                        chains.push((format!("{}:right-nested:{}", name, d), r));
+                    }
+                    for (name, op, bottom) in [("not", Un::Not, "c2"), ("neg", Un::Neg, "c2"), ("bitnot", Un::BitNot, "c2")] {
+                        let mut e = E::col(bottom);
+                        for _ in 0..d {
+                            e = E::un(op, e);
+                        }
+                        chains.push((format!("{}:nested:{}", name, d), e));
+                    }
+                }
+                let n = chains.len();
+                for (label, e) in chains {
+                    let acc = ref_eval(&e, &lookup);
+                    let kind = label.split(':').next().unwrap_or("").to_string();
+                    let depth = label.rsplit(':').next().unwrap_or("").to_string();
+                    match catch(|| Val::from_msi(&e.to_msi().eval(&row))) {
+                        Err(pn) => out.push((format!("panic-in-eval:deep-chain:{}", panic_site(&pn)), format!("a {} chain ({}) panicked: {}", kind, label, pn), E::str(&label))),
+                        Ok(v) => {
+                            if !acc.contains(&v) {
+                                out.push((format!("wrong-result:deep-chain:{}", kind), format!("a chain `{}` evaluates to {} but the documented result is {} (nesting depth {})", label, v.show(), acc.iter().map(|a| a.show()).collect::<Vec<_>>().join(" or "), depth), E::str(&label)));
+                            }
+                        }
+                    }
+                }
+                // many restrictions on one query
+                for &d in &depths {
+                    let mut q = msi::Select::table("R");
+                    for _ in 0..d {
+                        q = q.with(msi::Expr::col("c1").eq(msi::Expr::integer(1)));
+                    }
+                    match catch(|| p.select_rows(q).map(|r| r.count()).map_err(|e| e.to_string())) {
+                        Ok(Ok(1)) => {}
+                        other => out.push(("wrong-result:deep-chain:with".to_string(), format!("select with {} true restrictions returned {:?} instead of the one row", d, other), E::str(&format!("with:{}", d)))),
+                    }
+                }
+                (n + depths.len(), out)
+            })
+            .expect("spawn")
+            .join()
+            .expect("deep-chain thread");
+        for (sig, detail, e) in violations.1 {
+            rep.violation(sig, detail, json!({"kind":"c13-deep","label": e}));
+        }
+        violations.0
+    };
+    rep.set("deep_chain_evaluations", deep_n);
+
     // ---------------- conditions as WHERE of select/update/delete ----------
     let cond_cases: Vec<&Case> = cases[..depth1]
         .iter()
@@ -554,7 +632,7 @@ pub fn run(tier: Tier) -> i32 {
     rep.set("states", total);
     rep.set("transitions", total + where_n);
     rep.set("traces_validated_against_impl", total + where_n);
-    rep.set("evaluations", total + where_n + stotal + reuse_n);
+    rep.set("evaluations", total + where_n + stotal + reuse_n + deep_n);
     rep.set("distinct_nontrivial", classes.len());
     rep.set("depth1_cases", depth1);
     rep.set("depth2_cases", depth2);
@@ -562,7 +640,7 @@ pub fn run(tier: Tier) -> i32 {
     rep.set("closure_values", vals.len());
     rep.set("where_calls", where_n);
     rep.set("exhaustive", true);
-    rep.set("rule", "every unary/binary operator (3+15+AND+OR) x V0 / V0^2 in four builds (literal-literal = folded at construction, column-column, literal-column, column-literal); depth 2 = every operator over the closure of depth-1 results (one representative expression per value, folded and lazy build); thorough adds depth 3 for integer operators; every depth-1 condition with a column also runs as WHERE of select, update and delete; every operator over every pair of columns is built once and evaluated on four row layouts (full, reversed, only the mentioned columns, full again). distinct_nontrivial = number of distinct result values/outcome classes observed");
+    rep.set("rule", "every unary/binary operator (3+15+AND+OR) x V0 / V0^2 in four builds (literal-literal = folded at construction, column-column, literal-column, column-literal); depth 2 = every operator over the closure of depth-1 results (one representative expression per value, folded and lazy build); thorough adds depth 3 for integer operators; every depth-1 condition with a column also runs as WHERE of select, update and delete; left- and right-nested chains of every associative-looking operator and of the unary operators to nesting depth 1000 over a column, and selects with up to 1000 restrictions; every operator over every pair of columns is built once and evaluated on four row layouts (full, reversed, only the mentioned columns, full again). distinct_nontrivial = number of distinct result values/outcome classes observed");
     for i in [0usize, depth1 / 2, depth1 + 5, total - 1] {
         if i < total {
             rep.sample(json!({"expr": cases[i].e.show(), "build": cases[i].build}));
